@@ -152,7 +152,8 @@ enum Wrote {
     Global,
 }
 struct VarProbe {
-    /// what a lookup of the name finds: 0 = undefined, 1 = null, 2 = a value
+    /// what a lookup of the name finds: 0 = undefined, 1 = null, 2 = a value,
+    /// 3 = the empty list `()` (defined, and not null)
     existing: u8,
     wrote: Cell<Wrote>,
     writes: Cell<u8>,
@@ -162,6 +163,7 @@ impl VarProbe {
         match self.existing {
             0 => None,
             1 => Some(Value::Null),
+            3 => Some(Value::List(vec![], None, false)),
             _ => Some(Value::True),
         }
     }
@@ -175,7 +177,7 @@ impl VarProbe {
     }
 }
 
-//@range file=rsass/src/variablescope.rs impl="impl Scope" fn=set_variable from="if default\n            && !matches!(self.get_or_none(&name)"
+//@range file=rsass/src/variablescope.rs impl="impl Scope" fn=set_variable from="if default"
 //@  header: fn snippet_set_variable(probe: &VarProbe, name: Name, val: Value, default: bool, global: bool) -> Result<(), ()>
 //@  subst: self.get_or_none(&name) => probe.lookup()
 //@  subst: self.define_global(name, val) => probe.global(name, val)
@@ -190,7 +192,7 @@ fn assignment_flags(existing: u8, default: bool, global: bool) {
     let p = VarProbe { existing, wrote: Cell::new(Wrote::Nothing), writes: Cell::new(0) };
     let r = snippet_set_variable(&p, Name::from_static("x"), Value::False, default, global);
     assert!(r.is_ok());
-    if default && existing == 2 {
+    if default && existing >= 2 {
         assert!(p.wrote.get() == Wrote::Nothing, "!default does not assign when the variable already has a value");
     } else {
         assert!(p.writes.get() == 1, "the assignment writes exactly once");
@@ -218,6 +220,7 @@ flags_case!(c16_default_defined, 2, true, false);
 flags_case!(c16_default_global_undefined, 0, true, true);
 flags_case!(c16_default_global_null, 1, true, true);
 flags_case!(c16_default_global_defined, 2, true, true);
+flags_case!(c16_default_empty_list_is_a_value, 3, true, false);
 
 /// C16, first clause: "an assignment without flags updates the variable in
 /// the innermost enclosing scope that already declares it".  KNOWN FINDING:
